@@ -151,6 +151,27 @@ def run(tier):
                       "seed": rng.randrange(1, 1 << 40), "watchdog": 180, "src": "queue-last-tree-bins"})
     # (base beyond the marks: with sizes that differ by orders of magnitude the window's demand is not the same
     # at every mark; these runs are judged by NoGratuitousMap, Envelope, ReleaseOnce)
+    # directed family "two free chunks of one tree bin": per tree bin [lo, hi) two blocks whose chunks are
+    # lo + 1/4 and lo + 3/4 of the bin's range, separated by live pins (no coalescing), top taken away by a
+    # filler block, both freed (small-then-large and large-then-small: two tree shapes), then requests
+    # between the two sizes (lower and upper half of the bin) while nothing larger is free: the bigger
+    # chunk must be reused - tmalloc_large has to look into the subtree it did not descend into
+    sh = k["treebin_shift"]
+    tree_bins = [0, 1, 6, 9, 12, 16, 17, 20, 23, 26, 30, 31] if quick else list(range(32))
+    for b in tree_bins:
+        lo = (1 << ((b >> 1) + sh)) | ((b & 1) << ((b >> 1) + sh - 1))
+        hi = (1 << (((b + 1) >> 1) + sh)) | (((b + 1) & 1) << (((b + 1) >> 1) + sh - 1)) if b < 31 else 2 * lo
+        r = hi - lo
+        req = lambda chunk: max(1, ((chunk + 15) & ~15) - 8)
+        small, large = lo + r // 4, lo + 3 * r // 4
+        for order in ("small-first", "large-first"):
+            for want in (lo + 3 * r // 8, lo + 5 * r // 8):
+                frees = [["f", 0], ["f", 2]] if order == "small-first" else [["f", 2], ["f", 0]]
+                ops = ([["m", 0, req(small), 16], ["m", 1, 40, 16], ["m", 2, req(large), 16], ["m", 3, 40, 16], ["t", 4, 32]]
+                       + frees + [["m", 5, req(want), 16], ["m", 6, req(lo + r // 8), 16], ["f", 5], ["f", 6], ["f", 1], ["f", 3], ["f", 4]])
+                for osd in ("b", "a", "d"):
+                    plans.append({"kind": "hist", "slots": 8, "ops": ops, "os": osd, "walk": True,
+                                  "src": "directed-two-free-chunks-in-one-tree-bin"})
     # multi-threaded: T threads share one allocator behind tiny-std's own Mutex (lock, one call,
     # unlock - the composition GlobalDlMalloc uses); each thread repeats a TLC-generated workload
     n_mt = 12 if quick else 150
